@@ -599,7 +599,7 @@ class Interp:
             return Opaque("binop")
         if isinstance(op, ast.Add) and type(a) is type(b) and isinstance(a, (int, list, tuple, str, bytes)):
             return a + b
-        if isinstance(op, ast.Mult) and isinstance(a, str) and isinstance(b, int):
+        if isinstance(op, ast.Mult) and isinstance(a, (str, list, tuple)) and isinstance(b, int) and not isinstance(b, bool):
             return a * b
         if isinstance(op, ast.Mult) and isinstance(a, int) and isinstance(b, int):
             return a * b
@@ -645,7 +645,18 @@ class Interp:
                 if all(self.truth(self.ev(c)) for c in g.ifs):
                     rec(i + 1)
 
-        rec(0)
+        # a comprehension has its own scope: its targets do not leak into (or clobber names of) the function
+        targets = {n.id for g in gens for n in ast.walk(g.target) if isinstance(n, ast.Name)}
+        missing = object()
+        saved = {t: self.env.get(t, missing) for t in targets}
+        try:
+            rec(0)
+        finally:
+            for t, v in saved.items():
+                if v is missing:
+                    self.env.pop(t, None)
+                else:
+                    self.env[t] = v
         if isinstance(e, ast.DictComp):
             return dict(results)
         if isinstance(e, ast.SetComp):
@@ -672,6 +683,8 @@ class Interp:
                             return sorted(args[0], reverse=bool(kwargs.get("reverse", False)))
                         except TypeError:
                             return sorted(args[0], key=repr, reverse=bool(kwargs.get("reverse", False)))
+                    if nm in ("max", "min") and set(kwargs) == {"default"} and len(args) == 1:
+                        return {"max": max, "min": min}[nm](args[0], default=kwargs["default"])
                     if kwargs:
                         raise Unsupported(e, "(keyword arguments to a builtin)")
                     if nm in ("max", "min", "sum"):
@@ -883,6 +896,9 @@ class Interp:
                     raise PyRaise("KeyError", None)
                 except TypeError:
                     raise PyRaise("TypeError", None)
+            if isinstance(recv, __import__("types").MappingProxyType) and meth in ("items", "values", "keys", "get"):
+                r = getattr(recv, meth)(*args)
+                return list(r) if meth != "get" else r
             if isinstance(recv, dict) and meth in ("items", "values", "keys", "get"):
                 r = getattr(recv, meth)(*args)
                 return list(r) if meth != "get" else r
